@@ -1101,6 +1101,155 @@ class World:
         self.label('views')
         self.nontrivial.add('views')
 
+    # a second manager ----------------------------------------------
+    PEER_OPS = ['swap', 'reorder_to', 'declare', 'build', 'gc', 'drop',
+                'sift', 'apply', 'build', 'declare', 'swap', 'undeclare']
+
+    def _get_peer(self):
+        """A second manager of the same kind over the same universe of
+        names, created on first use: other order, possibly lacking the
+        top variable of this one."""
+        peer = getattr(self, 'peer', None)
+        if peer is None:
+            init = list(reversed(self.order))
+            k = len(self.log)
+            if k % 5 == 0 and init:
+                init = init[:-1]
+            elif k % 5 == 1 and len(init) > 2:
+                init = init[1:] + init[:1]
+            elif k % 5 == 3:
+                init = list(self.order[:-1])    # a prefix of this order
+            elif k % 5 == 4:
+                init = []
+            cfg = dict(kind=self.kind, nmax=self.nmax,
+                       semantic=self.cfg.get('semantic', 1),
+                       order=init or None, init_vars=0)
+            if self.cfg.get('reordering'):
+                cfg.update(reordering=True,
+                           reorder_starts=self.cfg.get('reorder_starts'))
+            peer = World(cfg)
+            peer.is_peer = True
+            peer.check()
+            self.peer = peer
+            self.label('peer.created')
+        return peer
+
+    def op_peer(self, k, a, b):
+        """One ordinary operation on the second manager."""
+        import inspect
+        peer = self._get_peer()
+        name = self.PEER_OPS[k % len(self.PEER_OPS)]
+        fn = getattr(peer, 'op_' + name)
+        ar = len(inspect.signature(fn).parameters)
+        args = [a, b, a * 7 + b, b * 5 + a, 1, 1][:ar]
+        if name in ('build', 'apply'):
+            args[-1] = 1        # keep the result
+        peer.step([name] + args)
+        self.label('peer.' + name)
+
+    def op_xcopy(self, i, form, d):
+        """Copy a held function to / from the second manager."""
+        import dd._copy as _copy
+        peer = self._get_peer()
+        src, dst = (self, peer) if d % 2 == 0 else (peer, self)
+        if not src.held:
+            return
+        e = src.held[i % len(src.held)]
+        supp = [src.U[j] for j in sorted(tt.support(e.t, src.n))]
+        missing = [x for x in supp if x not in dst.order]
+        form %= 3
+        snap = (dict(src.b._succ), dict(src.b._ref), dict(src.b.vars))
+
+        def do():
+            if src.kind == 'autoref':
+                if form == 0:
+                    return src.A.copy(e.ref, dst.A)
+                if form == 1:
+                    return src._ar.copy_bdd(e.ref, dst.A)
+                return _copy.copy_bdds_from(iter([e.ref]), dst.A)[0]
+            u = src.node(e.ref)
+            if form == 1:
+                return src._bddmod.copy_bdd(u, src.b, dst.b)
+            return src.b.copy(u, dst.b)
+        if missing:
+            try:
+                do()
+            except src._bddmod._NeedsReordering:
+                raise Violation('xcopy.signal_escaped')
+            except Violation:
+                raise
+            except Exception:
+                self.label('xcopy.rejected_missing_variable')
+                gc.collect()
+            else:
+                raise Violation('xcopy.missing_variable_accepted',
+                                dict(missing=missing))
+        else:
+            r = do()
+            dst.hold(r, e.t, 1)
+            r = None
+            self.label('xcopy.done')
+            self.nontrivial.add('xcopy')
+            if [x for x in src.order if x in dst.order] != \
+                    [x for x in dst.order if x in src.order]:
+                self.nontrivial.add('xcopy.other_order')
+            if any(x not in dst.order for x in src.order):
+                self.label('xcopy.target_lacks_a_variable')
+        require((dict(src.b._succ), dict(src.b._ref), dict(src.b.vars))
+                == snap, 'xcopy.source_changed')
+        peer.check()
+
+    def op_xcopy_vars(self, d):
+        """copy_vars to / from the second manager: reproduces names and
+        levels, or refuses."""
+        import dd._copy as _copy
+        peer = self._get_peer()
+        src, dst = (self, peer) if d % 2 == 0 else (peer, self)
+        # what a sequence of `add_var(name, level)` has to do
+        have = {x: l for l, x in enumerate(dst.order)}
+        used = set(have.values())
+        added = {}
+        conflict = False
+        for x in list(src.b.vars):
+            l = src.order.index(x)
+            if x in have or x in added:
+                if {**have, **added}[x] != l:
+                    conflict = True
+                    break
+            elif l in used:
+                conflict = True
+                break
+            else:
+                added[x] = l
+                used.add(l)
+        final = {**have, **added}
+        if sorted(final.values()) != list(range(len(final))):
+            # the refusal (or an out-of-order completion) would pass
+            # through a state with an empty level: not judged
+            self.label('excluded.copy_vars_through_gap')
+            return
+
+        def do():
+            if src.kind == 'autoref':
+                src._ar.copy_vars(src.A, dst.A)
+            else:
+                _copy.copy_vars(src.b, dst.b)
+        if conflict:
+            dst.expect_error(do, ValueError, 'copy_vars.conflict_accepted')
+            self.label('copy_vars.refused')
+        else:
+            do()
+            self.label('copy_vars.done')
+            for x in src.order:
+                require(dst.b.vars.get(x) == src.b.vars[x],
+                        'copy_vars.levels_differ',
+                        dict(source=dict(src.b.vars),
+                             target=dict(dst.b.vars)))
+        dst.order = sorted(final, key=final.get)
+        if added:
+            self.nontrivial.add('copy_vars')
+        peer.check()
+
     # collections -----------------------------------------------------
     def op_gc(self, rc=1):
         before = set(self.b._succ)
@@ -1723,6 +1872,8 @@ class World:
     def shutdown(self, perm_seed=0):
         """Drop every handle in a generated order, then run the
         manager's own shutdown check and a collection."""
+        if getattr(self, 'peer', None) is not None:
+            self.peer.shutdown(perm_seed + 1)
         r = random.Random(perm_seed)
         while self.held:
             e = self.held.pop(r.randrange(len(self.held)))
